@@ -602,4 +602,92 @@ example : wfBlk (mkBlk conflictAB) = true ∧ noConflictingBindings (mkBlk confl
 
 end C06PlacementExamples
 
+/-! ## Same bucket ⟺ headers equal up to renaming (proofs: `Lemmas/CanonHeaderConverse.lean`, C13)
+
+`mkBuckets` puts two canonical blocks into one bucket exactly when their group ids (`groupIdOf` = trait path and self type
+of the canonical block) are equal. The two directions hold under different executable conditions:
+* IF (`C06_renamed_permuted_same_header`): a block and its consistently renamed and re-ordered presentation have the same
+  group id — `canonWF item`, `alphaOK π item` (or `alphaOKh` + `hdrVis`, `…_same_header_any`);
+* ONLY IF (`C13_same_header_only_if_renaming`): two blocks with the same group id have headers that are textual renamings
+  of each other by the computed renaming `hdrRenamingBetween_hc item item'` — `hdrConverseOK_hc` for both blocks (it
+  contains `canonWF`; the clause `strayFree_hc` is needed, `C13_same_header_stray_counterexamples`: a user type spelled
+  `_ŠČ1` lands in the bucket of a type parameter). -/
+
+/-- **two blocks land in the same bucket ONLY IF their headers are equal up to renaming** (`groupIdOf item` is the header —
+    trait path and self type — of the raw block, `groupIdOf (mkBlk item).item` the group id by which `mkBuckets` groups) -/
+theorem C06_same_bucket_only_if_headers_alpha_equivalent (item item' : T) (h : hdrConverseOK_hc item = true)
+    (h' : hdrConverseOK_hc item' = true) (e : groupIdOf (mkBlk item).item = groupIdOf (mkBlk item').item) :
+    acT_cr (hdrRenamingBetween_hc item item') (groupIdOf item) = groupIdOf item' :=
+  C13_same_header_only_if_renaming item item' h h' e
+
+/-- **same bucket iff headers alpha-equivalent**, both directions with the executable conditions under which each holds:
+    for blocks `item`, `item'` satisfying `hdrConverseOK_hc`,
+    (1) ONLY IF: if they have the same group id, the header of `item'` is the header of `item` renamed by the computed
+        renaming of the two headers;
+    (2) IF: if `item'` is `item` consistently renamed by some `π` with `alphaOK π item` (only declared parameters
+        respelled, new spellings distinct per name space, unused parameters keep their spelling, no capture) and with its
+        declarations permuted, they have the same group id — and then, by (1), the computed header renaming maps the one
+        header to the other (it is `π` restricted to the parameters of the header).
+    The IF direction for an arbitrary `item'` whose HEADER alone is a renaming of the header of `item` is not stated: the
+    group id of `item'` is computed from the header's own numbering (`C13_header_resolved_locally`), but the existing
+    alpha-invariance theorems are about renamings of whole blocks. -/
+theorem C06_same_bucket_iff_headers_alpha_equivalent (item item' : T) (h : hdrConverseOK_hc item = true)
+    (h' : hdrConverseOK_hc item' = true) :
+    (groupIdOf (mkBlk item).item = groupIdOf (mkBlk item').item →
+      acT_cr (hdrRenamingBetween_hc item item') (groupIdOf item) = groupIdOf item') ∧
+    (∀ (π : Renaming) (ps' : List T), alphaOK π item = true → ps'.Perm (implParams (alphaRename π item)) →
+      item' = setParams ps' (alphaRename π item) →
+      groupIdOf (mkBlk item).item = groupIdOf (mkBlk item').item ∧
+      acT_cr (hdrRenamingBetween_hc item item') (groupIdOf item) = groupIdOf item') := by
+  refine ⟨C06_same_bucket_only_if_headers_alpha_equivalent item item' h h', ?_⟩
+  intro π ps' hal hp e
+  have hb : groupIdOf (mkBlk item).item = groupIdOf (mkBlk item').item := by
+    rw [e]
+    exact (C06_renamed_permuted_same_header π item ps' (hdrConverseOK_parts_hc h).1 hal hp).symm
+  exact ⟨hb, C06_same_bucket_only_if_headers_alpha_equivalent item item' h h' hb⟩
+
+/-- … as an equivalence, for a block and its renamed and re-ordered presentation: they are in one bucket, and (equivalently)
+    the computed header renaming maps the one header to the other -/
+theorem C06_renamed_permuted_bucket_iff (π : Renaming) (item : T) (ps' : List T) (hal : alphaOK π item = true)
+    (hp : ps'.Perm (implParams (alphaRename π item))) (h : hdrConverseOK_hc item = true)
+    (h' : hdrConverseOK_hc (setParams ps' (alphaRename π item)) = true) :
+    groupIdOf (mkBlk item).item = groupIdOf (mkBlk (setParams ps' (alphaRename π item))).item ↔
+      acT_cr (hdrRenamingBetween_hc item (setParams ps' (alphaRename π item))) (groupIdOf item) =
+        groupIdOf (setParams ps' (alphaRename π item)) := by
+  have := (C06_same_bucket_iff_headers_alpha_equivalent item _ h h').2 π ps' hal hp rfl
+  exact ⟨fun _ => this.2, fun _ => this.1⟩
+
+section C06HeaderConverseExamples
+open Ex13
+set_option maxRecDepth 100000
+
+/-- non-vacuity of `C06_same_bucket_iff_headers_alpha_equivalent` / `C06_renamed_permuted_bucket_iff`:
+    `impl<U, T: Tr<U>> Kita for (T, T::Target)` against `impl<A: Tr<B>, B> Kita for (A, A::Target)` (renamed `T ↦ A, U ↦ B`,
+    declarations swapped): every hypothesis of both directions holds, the two blocks are in one bucket, the computed
+    header renaming is `T ↦ A` (not the identity) and maps the one header to the other; and a pair in DIFFERENT buckets whose
+    headers are not renamings of each other (`(T, T::Target)` against `(T, U)`) -/
+theorem C06_same_bucket_iff_example :
+    hdrConverseOK_hc named = true ∧ hdrConverseOK_hc (setParams namedABSwParams (alphaRename piNamed named)) = true ∧
+    alphaOK piNamed named = true ∧
+    groupIdOf (mkBlk named).item = groupIdOf (mkBlk (setParams namedABSwParams (alphaRename piNamed named))).item ∧
+    hdrRenamingBetween_hc named (setParams namedABSwParams (alphaRename piNamed named)) = ⟨[], [("T", "A")], []⟩ ∧
+    acT_cr (hdrRenamingBetween_hc named (setParams namedABSwParams (alphaRename piNamed named))) (groupIdOf named) =
+      groupIdOf (setParams namedABSwParams (alphaRename piNamed named)) ∧
+    (mkBuckets [mkBlk named, mkBlk (setParams namedABSwParams (alphaRename piNamed named))]).length = 1 ∧
+    (hdrConverseOK_hc hcTwo = true ∧ groupIdOf (mkBlk named).item ≠ groupIdOf (mkBlk hcTwo).item ∧
+      acT_cr (hdrRenamingBetween_hc named hcTwo) (groupIdOf named) ≠ groupIdOf hcTwo ∧
+      (mkBuckets [mkBlk named, mkBlk hcTwo]).length = 2) := by
+  refine ⟨?_, ?_, ?_, ?_, ?_, ?_, ?_, ?_, ?_, ?_, ?_⟩
+  all_goals first | with_unfolding_all decide | decide +kernel
+
+/-- the ONLY-IF direction needs `strayFree_hc`: `impl<T> Kita for (T, _ŠČ1)` and `impl<T, U> Kita for (T, U)` fall into ONE
+    bucket although their headers are not renamings of each other (`C13_same_header_stray_counterexamples`) -/
+theorem C06_same_bucket_stray_counterexample :
+    canonWF hcStray = true ∧ strayFree_hc hcStray = false ∧ hdrConverseOK_hc hcTwo = true ∧
+    (mkBuckets [mkBlk hcStray, mkBlk hcTwo]).length = 1 ∧
+    acT_cr (hdrRenamingBetween_hc hcStray hcTwo) (groupIdOf hcStray) ≠ groupIdOf hcTwo := by
+  refine ⟨?_, ?_, ?_, ?_, ?_⟩
+  all_goals first | with_unfolding_all decide | decide +kernel
+end C06HeaderConverseExamples
+
 end DI
